@@ -434,6 +434,15 @@ def gen_case(seed, i):
     if chosen and (chosen[0] in NEEDS_FIXED or (dim == 1 and chosen[0] == "passive-cluster")):
         datum = "fixed"
     net = netgen.gen_net(rng, dim=dim, datum=datum, noise=False, features=tuple(feats))
+    if dim == 3 and "vectors" not in feats and "coords" not in feats and rng.uniform() < 0.4:
+        # steep terrain: height differences comparable with the horizontal distances, so that slope length and
+        # horizontal length of a sight differ (the gross-term test of a zenith angle works with the slope length)
+        f = float(rng.uniform(3.0, 12.0))
+        for q in net.points.values():
+            q.H *= f
+        for cl, o in net.all_obs():
+            o.true = o.val = netgen.model_value(net, cl, o)
+        feats.append("steep")
     tol = TOLS[(i // 2) % 3] if rng.uniform() < 0.8 else float(rng.choice(TOLS))
     net.params["tol_abs"] = tol
     info = dict(index=i, seed=seed, dim=dim, feats=feats, tol=tol, defects=[], blunders=[], exp_points={},
@@ -455,6 +464,10 @@ def gen_case(seed, i):
         INJECT[name](rng, net, info, "D%d" % (k + 1))
     # blunders
     nbl = int(rng.choice([0, 1, 1, 2, 3])) if ndef else int(rng.choice([1, 1, 2, 3]))
+    if "steep" in feats and rng.uniform() < 0.7:
+        # a zenith-angle blunder just above tol-abs on the steepest sight
+        info["force"] = ("z-angle", 1 + 1e-2)
+        nbl = max(nbl, 1)
     plant_blunders(rng, net, info, nbl, i)
     return net, info
 
@@ -512,7 +525,8 @@ def defect_menu(dim):
         return ["isolated", "isolated-nocoord", "passive-cluster", "floating-pair", "isolated", "isolated-nocoord"]
     m = ["isolated", "isolated-nocoord", "single-direction-target", "single-distance-target",
          "uncomputable-target", "single-direction-station", "duplicate-direction-station",
-         "station-second-target-unusable", "passive-cluster", "weak-intersection", "borderline-intersection"]
+         "station-second-target-unusable", "passive-cluster", "weak-intersection", "borderline-intersection",
+         "single-angle-fs-target", "single-angle-bs-target"]
     if dim == 3:
         m += ["single-slope-target", "unobserved-height"]
     return m
@@ -588,12 +602,22 @@ def inj_single_target(rng, net, info, name, elem="direction", give=None):
     cl = _stations(net, info["base"])[int(rng.integers(0, len(_stations(net, info["base"]))))]
     if elem == "s-distance" and net.points[cl.station].z == "none":
         elem = "distance"
-    _add_obs(net, cl, elem, cl.station, name, 10.0 if elem == "direction" else 5.0)
+    if elem in ("angle-fs", "angle-bs"):
+        # the new point is one arm of a single angle, the other arm goes to a base point
+        others = [p for p in sorted(info["base"]) if p != cl.station and net.points[p].xy != "none"]
+        other = str(others[int(rng.integers(0, len(others)))])
+        if elem == "angle-fs":
+            _add_obs(net, cl, "angle", cl.station, None, 10.0, bs=other, fs=name)
+        else:
+            _add_obs(net, cl, "angle", cl.station, None, 10.0, bs=name, fs=other)
+    else:
+        _add_obs(net, cl, elem, cl.station, name, 10.0 if elem == "direction" else 5.0)
     info["exp_points"][(name, "xy")] = "indeterminable" if give else "missing"
     if z != "none":
         info["exp_points"][(name, "z")] = "indeterminable" if give else "missing"
     info["defects"].append({"direction": "single-direction-target", "distance": "single-distance-target",
-                            "s-distance": "single-slope-target"}[elem] if give else "uncomputable-target")
+                            "s-distance": "single-slope-target", "angle-fs": "single-angle-fs-target",
+                            "angle-bs": "single-angle-bs-target"}[elem] if give else "uncomputable-target")
 
 
 def inj_unobserved_height(rng, net, info, name):
@@ -752,6 +776,8 @@ INJECT = {
     "single-direction-target": lambda r, n, f, nm: inj_single_target(r, n, f, nm, "direction", True),
     "single-distance-target": lambda r, n, f, nm: inj_single_target(r, n, f, nm, "distance", True),
     "single-slope-target": lambda r, n, f, nm: inj_single_target(r, n, f, nm, "s-distance", True),
+    "single-angle-fs-target": lambda r, n, f, nm: inj_single_target(r, n, f, nm, "angle-fs", True),
+    "single-angle-bs-target": lambda r, n, f, nm: inj_single_target(r, n, f, nm, "angle-bs", True),
     "uncomputable-target": lambda r, n, f, nm: inj_single_target(
         r, n, f, nm, str(r.choice(["direction", "distance"])), False),
     "unobserved-height": inj_unobserved_height,
@@ -797,7 +823,17 @@ def plant_blunders(rng, net, info, nbl, i):
                 rng.choice(FACTORS_NEAR + FACTORS_FAR))
         else:
             f = float(rng.choice(FACTORS_NEAR + FACTORS_FAR))
+        forced = b == 0 and info.get("force") and info["force"][0] in kinds
+        if forced:
+            kind, f = info["force"]
         pool = [it for it in cand if it.kind == kind and it.n not in {c["n"] for c in chosen}]
+        if forced:
+            # steepest sights first (slope and horizontal length differ most)
+            def steep(it):
+                a, c = P[it.frm], P[it.to]
+                d0 = math.hypot(a.E - c.E, a.N - c.N)
+                return d0 / max(math.sqrt(d0 * d0 + (a.H - c.H) ** 2), 1e-9)
+            pool = sorted(pool, key=steep)[:2]
         if kind == "direction":
             pool = [it for it in pool if ndir[it.ci] >= 4 and not any(c["ci"] == it.ci for c in chosen)]
         for it in [pool[int(k)] for k in rng.permutation(len(pool))[:6]]:
@@ -848,7 +884,14 @@ def plant_blunders(rng, net, info, nbl, i):
                     clean.add(it.ci)
                 it.obs.val = (netgen.model_value(net, cl, it.obs, P) + sign * rad / GON) % 400.0
             elif kind == "z-angle":
-                it.obs.val = netgen.model_value(net, cl, it.obs, P) + sign * rad / GON
+                if forced and cl.cov is None:
+                    # weight 1: the homogenised term equals the raw one, so the known defect of the gross-term test
+                    # (term x sigma-apr / stdev) cannot explain a deviation away
+                    it.obs.stdev = float(net.params["sigma_apr"])
+                mz = netgen.model_value(net, cl, it.obs, P)
+                if not 1.0 < mz + sign * rad / GON < 199.0:
+                    sign = -sign          # a zenith angle must stay inside (0, 200) gon to be a valid input
+                it.obs.val = mz + sign * rad / GON
             else:
                 it.obs.val = (netgen.model_value(net, cl, it.obs, P) + sign * rad / GON) % 400.0
             chosen.append(dict(n=it.n, ci=it.ci, kind=kind, factor=f, side=side_of(f), label=it.label()))
@@ -1633,7 +1676,12 @@ def run(tier, seed, only=None):
             fr = netgen.Frame()
             A = netlevel.physical_result(g1.xml, fr)
             B = netlevel.physical_result(g2.xml, fr)
-            bad = netlevel.compare_physical(A, B, tol_m=1e-7, rel=1e-6)
+            # same linearisation point only if both runs iterated equally often (see netlevel / DESIGN 7.1)
+            if g1.xml.get("iterations") == g2.xml.get("iterations"):
+                bad = netlevel.compare_physical(A, B, tol_m=1e-7, rel=1e-6)
+            else:
+                ck.count("deletion: runs with different iteration counts (linearisation-criterion tolerances)")
+                bad = netlevel.compare_physical(A, B, tol_m=1e-6, rel=netlevel.rel_between_linearisation_points(net), res_tol=1e-2)
             seen_k = set()
             for key, msg, okey in bad:
                 if key in seen_k:
@@ -1655,7 +1703,7 @@ def run(tier, seed, only=None):
         "stations with several sets or without a remaining orientation unknown are not judged",
         "expected removals follow from the construction of the injected defects; the generated base network keeps "
         "its rank when planted blunders are excluded (numpy guard)",
-        "deletion: 1e-7 m on coordinates, 1e-6 relative elsewhere (netlevel.compare_physical)"]
+        "deletion: 1e-7 m on coordinates, 1e-6 relative elsewhere (netlevel.compare_physical) when both runs iterated equally often, otherwise the linearisation-criterion tolerances"]
     if only is None:
         ck.minimum = dict(evaluations=tier_n(tier, 600, 15000), distinct=tier_n(tier, 300, 800))
         ck.minimum["observations judged by the rule"] = tier_n(tier, 10000, 300000)
